@@ -7,3 +7,4 @@ for p in "$@"; do
   echo "$out" | grep -E "^\[|^VIOLATION|^HARNESS|^KNOWN|^  oracle" | cut -c1-260
   [ $rc -ne 0 ] && echo "   ^^^ exit=$rc"
 done
+exit 0
